@@ -509,7 +509,7 @@ func (db *SingleBucketBackend) deleteObjectLocked(bucketName, objectName string)
 	// Remove the directories left behind by the key as long as they are empty:
 	// S3 has no directories and a left-over one would be listed as a common
 	// prefix.
-	for dir := path.Dir(path.Clean(objectName)); dir != "." && dir != "/" && !strings.HasPrefix(dir, ".."); dir = path.Dir(dir) {
+	for dir := path.Dir(path.Clean(objectName)); dir != "." && dir != "/" && dir != ".." && !strings.HasPrefix(dir, "../"); dir = path.Dir(dir) {
 		entries, err := afero.ReadDir(db.fs, filepath.FromSlash(dir))
 		if err != nil || len(entries) > 0 {
 			break
